@@ -182,7 +182,9 @@ pub fn family(name: &str) -> Family {
             a.extend(["refresh 0 keep", "refresh 1 drop", "refresh 2 keep", "refresh 2 drop", "refresh 3 keep", "refresh 3 drop"].iter().map(|s| s.to_string()));
             Family {
                 name: "trace",
-                init: w_init(false),
+                // the master key is snapshotted in the initial world: every key issued later is
+                // unknown to the restored master key
+                init: { let mut i = w_init(false); i.extend(ops(&["snapshot"])); i },
                 alphabet: ops(&a.iter().map(String::as_str).collect::<Vec<_>>()),
                 enc_menu: vec!["A::x", "A::y", "H::lo", "*"],
                 tags: Tags { open: "C17.o", deny: "C17.o" },
@@ -247,7 +249,8 @@ pub fn family(name: &str) -> Family {
         "failrot" => {
             let mut f = family("rot");
             f.name = "failrot";
-            f.alphabet.extend(ops(&["add A::z classic", "disable A::y", "del A::x", "update", "snapshot", "restore"]));
+            f.alphabet.extend(ops(&["add A::z classic", "disable A::y", "del A::x", "update", "restore"]));
+            f.init.extend(ops(&["snapshot"]));
             f.rt_bound = 1;
             f.probes = &["forged"];
             f
@@ -470,9 +473,11 @@ pub fn explore(run: &mut Run, fam: &Family, max_depth: usize, cap_secs: f64, own
                 // state with the same clause verdicts
                 if k % 64 == 0 {
                     let again = run_transition(fam, &part[*i], &fam.alphabet[*j]);
+                    // (executions with clause failures are left to the violation logic: a defect
+                    // may depend on the library's hash order, which is not controlled)
                     let same = match (&out, &again) {
                         (None, None) => true,
-                        (Some(a), Some(b)) => a.key == b.key && a.ok == b.ok && a.failures.iter().map(|f| &f.clause).collect::<Vec<_>>() == b.failures.iter().map(|f| &f.clause).collect::<Vec<_>>(),
+                        (Some(a), Some(b)) => !a.failures.is_empty() || !b.failures.is_empty() || (a.key == b.key && a.ok == b.ok),
                         _ => false,
                     };
                     if !same {
@@ -560,13 +565,21 @@ fn handle_failures(run: &mut Run, fam: &Family, hist: &[Op], op: Option<&Op>, fa
     for f in fails {
         if owned.iter().any(|p| f.clause.starts_with(p)) {
             if !reported {
-                // confirm on a fresh world before reporting
-                let again = match op {
-                    Some(o) => run_transition(fam, hist, o).map(|o| o.failures).unwrap_or_default(),
-                    None => fails.to_vec(),
-                };
-                if !again.iter().any(|g| g.clause == f.clause) {
-                    machinery(&format!("clause {} fired once but not on replay of [{}]: {}", f.clause, ops.join("; "), f.msg));
+                // confirm on fresh worlds before reporting; a defect may depend on the
+                // library's hash order (not controlled), so up to 8 replays are tried
+                let mut confirmed = op.is_none();
+                for _ in 0..8 {
+                    if confirmed {
+                        break;
+                    }
+                    let again = match op {
+                        Some(o) => run_transition(fam, hist, o).map(|o| o.failures).unwrap_or_default(),
+                        None => fails.to_vec(),
+                    };
+                    confirmed = again.iter().any(|g| g.clause == f.clause);
+                }
+                if !confirmed {
+                    machinery(&format!("clause {} fired once but in none of 8 replays of [{}]: {}", f.clause, ops.join("; "), f.msg));
                 }
                 run.report(None, &f.clause, &format!("after [{}]: {}", ops.join("; "), f.msg), replay.clone());
                 reported = true;
